@@ -341,4 +341,524 @@ theorem auxNames_eq (l : List Str) :
     simp only [Nat.zero_add] at this
     simp [this]
 
+theorem range_map_eq (l : List Str) (g : Nat → Str) (hg : ∀ i (hi : i < l.length), g i = l[i]) :
+    (List.range l.length).map g = l := by
+  apply List.ext_getElem
+  · simp
+  · intro i h1 h2
+    simp [hg i h2]
+
+/-! ## XCFG data block -/
+
+def usOf (L : XLayout) (a : XAtom) : List Rat :=
+  if L.uMode = 0 then [] else if L.uMode = 1 then [a.u.getD 0 0]
+  else [a.u.getD 0 0, a.u.getD 4 0, a.u.getD 8 0] ++ (if L.u12 then [a.u.getD 1 0] else []) ++
+       (if L.u13 then [a.u.getD 2 0] else []) ++ (if L.u23 then [a.u.getD 5 0] else [])
+
+def velOf (L : XLayout) (a : XAtom) : List Rat :=
+  if L.noVel then [] else match a.v with | some v => [v.x, v.y, v.z] | none => []
+
+/-- the numbers of one entry line, in column order -/
+def entryVals (L : XLayout) (a : XAtom) : List Rat :=
+  xcfgPos L a ++ velOf L a ++ a.aux ++ (if L.occ then [a.occ] else []) ++ usOf L a
+
+theorem xcfgEntry_eq (L : XLayout) (a : XAtom) : xcfgEntry L a = ssv ((entryVals L a).map g8) := rfl
+
+def uCount (L : XLayout) : Nat :=
+  if L.uMode = 0 then 0 else if L.uMode = 1 then 1
+  else 3 + (if L.u12 then 1 else 0) + (if L.u13 then 1 else 0) + (if L.u23 then 1 else 0)
+
+theorem usOf_length (L : XLayout) (a : XAtom) : (usOf L a).length = uCount L := by
+  unfold usOf uCount
+  split
+  · rfl
+  · split
+    · rfl
+    · cases L.u12 <;> cases L.u13 <;> cases L.u23 <;> rfl
+
+/-- the non-derived stored auxiliaries: the names whose values an atom carries in `aux` -/
+def storedOf (d : XcfgS) : List Str := d.storedAux.filter (fun n => !isDerivedAux n)
+
+def uNamesOf (L : XLayout) : List Str :=
+  if L.uMode = 0 then [] else if L.uMode = 1 then ["Uiso".toList]
+  else ["U11".toList, "U22".toList, "U33".toList] ++ (if L.u12 then ["U12".toList] else []) ++
+       (if L.u13 then ["U13".toList] else []) ++ (if L.u23 then ["U23".toList] else [])
+
+theorem uNamesOf_length (L : XLayout) : (uNamesOf L).length = uCount L := by
+  unfold uNamesOf uCount
+  split
+  · rfl
+  · split
+    · rfl
+    · cases L.u12 <;> cases L.u13 <;> cases L.u23 <;> rfl
+
+theorem layout_aux (d : XcfgS) :
+    (xcfgLayout d).aux =
+      storedOf d ++ (if (xcfgLayout d).occ then ["occupancy".toList] else []) ++ uNamesOf (xcfgLayout d) := rfl
+
+theorem layout_aux_length (d : XcfgS) :
+    (xcfgLayout d).aux.length =
+      (storedOf d).length + (if (xcfgLayout d).occ then 1 else 0) + uCount (xcfgLayout d) := by
+  rw [layout_aux, List.length_append, List.length_append, uNamesOf_length]
+  cases (xcfgLayout d).occ <;> rfl
+
+/-- what the reader makes of one written entry line (the atom of `quantXcfg`) -/
+def xreadOf (L : XLayout) (aq : Rat) (a : XAtom) : XRead :=
+  let pos := xcfgPos L a
+  let vel := if L.noVel then none else a.v.map (fun v => v.map (roundSig 8))
+  ⟨capitalize a.el, ⟨aq * roundSig 8 (pos.getD 0 0), aq * roundSig 8 (pos.getD 1 0), aq * roundSig 8 (pos.getD 2 0)⟩, vel,
+   L.aux.zip ((a.aux ++ (if L.occ then [a.occ] else []) ++ usOf L a).map (roundSig 8))⟩
+
+/-- `quantXcfg` as a function of the layout -/
+def quantXcfgL (L : XLayout) (d : XcfgS) : XcfgRead :=
+  ⟨d.atoms.length, roundSig 8 (L.a : Rat), d.base.map (roundSig 8), d.atoms.map (xreadOf L (roundSig 8 (L.a : Rat)))⟩
+
+theorem quantXcfg_eq (d : XcfgS) : quantXcfg d = quantXcfgL (xcfgLayout d) d := rfl
+
+theorem splitWs_entry (vs : List Rat) : splitWs (ssv (vs.map g8)) = vs.map g8 := by
+  rw [ssv, splitWs_joinSep_pad AllWs_one (by simp) _ _ (forall₂_map_same g8 (fun x => IsTok_fmtG 8 x) vs)]
+
+theorem mapM_parseDec_g8 (vs : List Rat) : (vs.map g8).mapM parseDec = some (vs.map (roundSig 8)) := by
+  induction vs with
+  | nil => rfl
+  | cons v vs ih => simp [parseDec_g8, ih]
+
+theorem xcfgData_entry (L : XLayout) (aq : Rat) (ec : Nat) (a : XAtom) (el : Str) (rest : List Str)
+    (hlen : (entryVals L a).length = ec) (hv : L.noVel = false → a.v.isSome = true) :
+    xcfgData aq L.noVel ec L.aux (some el) (xcfgEntry L a :: rest) =
+      match xcfgData aq L.noVel ec L.aux (some el) rest with
+      | .ok as => .ok ({ xreadOf L aq a with el := el } :: as)
+      | .error k => .error k := by
+  have hw := splitWs_entry (entryVals L a)
+  have hm := mapM_parseDec_g8 (entryVals L a)
+  have hlen' : ((entryVals L a).map g8).length = ec := by simpa using hlen
+  rw [xcfgData, xcfgEntry_eq, hw]
+  cases hnv : L.noVel with
+  | true =>
+    have he : entryVals L a = (xcfgPos L a).getD 0 0 :: (xcfgPos L a).getD 1 0 :: (xcfgPos L a).getD 2 0 ::
+        (a.aux ++ (if L.occ then [a.occ] else []) ++ usOf L a) := by
+      simp [entryVals, velOf, hnv, xcfgPos]
+    rw [he] at hm hlen' ⊢
+    simp only [List.map_cons] at hm hlen' ⊢
+    simp only [hlen', hm]
+    generalize xcfgData aq true ec L.aux (some el) rest = r
+    cases r <;> simp [xreadOf, hnv]
+  | false =>
+    obtain ⟨v, hav⟩ := Option.isSome_iff_exists.1 (hv hnv)
+    have he : entryVals L a = (xcfgPos L a).getD 0 0 :: (xcfgPos L a).getD 1 0 :: (xcfgPos L a).getD 2 0 ::
+        v.x :: v.y :: v.z :: (a.aux ++ (if L.occ then [a.occ] else []) ++ usOf L a) := by
+      simp [entryVals, velOf, hnv, hav, xcfgPos]
+    rw [he] at hm hlen' ⊢
+    simp only [List.map_cons] at hm hlen' ⊢
+    simp only [hlen', hm]
+    generalize xcfgData aq false ec L.aux (some el) rest = r
+    cases r <;> simp [xreadOf, hnv, hav, V3.map]
+
+theorem xcfgData_mass (aq : Rat) (nv : Bool) (ec : Nat) (names : List Str) (pel : Option Str) (m : Rat) (rest : List Str) :
+    xcfgData aq nv ec names pel (fmtF 0 4 m :: rest) = xcfgData aq nv ec names pel rest := by
+  have ht : IsTok (fmtFbody 4 m) := IsTok_fmtFbody 4 m
+  have hf : isFloatTok (fmtFbody 4 m) = true := by simp [isFloatTok, parseDec_fmtFbody]
+  rw [xcfgData.eq_def]
+  simp only [fmtF_zero, splitWs_tok_end ht, hf, if_true]
+
+theorem xcfgData_el (aq : Rat) (nv : Bool) (ec : Nat) (names : List Str) (pel : Option Str) (el : Str) (rest : List Str)
+    (he : elemOk el = true) (hf : isFloatTok el = false) :
+    xcfgData aq nv ec names pel (el :: rest) = xcfgData aq nv ec names (some (capitalize el)) rest := by
+  have ht : IsTok el := IsTok_of_elemOk he
+  have hs : strip el = el := by
+    have := strip_pad (a := []) (b := []) (s := el) (by intro c h; cases h) (by intro c h; cases h) ht.2
+    simpa using this
+  rw [xcfgData.eq_def]
+  simp only [splitWs_tok_end ht, hf, hs, Bool.false_eq_true, if_false]
+
+/-- per-atom conditions: the element is one non-numeric token, the atom carries one value per stored
+auxiliary, and a velocity when the first atom has one -/
+def atomWF (L : XLayout) (nst : Nat) (a : XAtom) : Prop :=
+  elemOk a.el = true ∧ isFloatTok a.el = false ∧ a.aux.length = nst ∧ (L.noVel = false → a.v.isSome = true)
+
+theorem entryVals_length (L : XLayout) (nst : Nat) (a : XAtom) (ha : atomWF L nst a)
+    (hL : L.aux.length = nst + (if L.occ then 1 else 0) + uCount L) :
+    (entryVals L a).length = (if L.noVel then 3 else 6) + L.aux.length := by
+  obtain ⟨_, _, hax, hv⟩ := ha
+  have hp : (xcfgPos L a).length = 3 := rfl
+  have hvel : (velOf L a).length = if L.noVel then 0 else 3 := by
+    unfold velOf
+    cases hnv : L.noVel with
+    | true => rfl
+    | false =>
+      obtain ⟨v, hav⟩ := Option.isSome_iff_exists.1 (hv hnv)
+      simp [hav]
+  have ho : (if L.occ then [a.occ] else []).length = if L.occ then 1 else 0 := by cases L.occ <;> rfl
+  simp only [entryVals, List.length_append, hp, hvel, hax, ho, usOf_length, hL]
+  cases L.noVel <;> simp <;> omega
+
+theorem xcfgData_atoms (L : XLayout) (aq : Rat) (nst : Nat)
+    (hL : L.aux.length = nst + (if L.occ then 1 else 0) + uCount L) :
+    ∀ (as : List XAtom) (e : Str), (∀ a ∈ as, atomWF L nst a) →
+      xcfgData aq L.noVel ((if L.noVel then 3 else 6) + L.aux.length) L.aux (some (capitalize e))
+        (xcfgAtomLines L (some e) as) = .ok (as.map (xreadOf L aq)) := by
+  intro as
+  induction as with
+  | nil => intro e _; rfl
+  | cons a as ih =>
+    intro e hwf
+    have ha := hwf a (by simp)
+    have hlen := entryVals_length L nst a ha hL
+    have ihh := ih a.el (fun b hb => hwf b (by simp [hb]))
+    have hentry : xcfgData aq L.noVel ((if L.noVel then 3 else 6) + L.aux.length) L.aux (some (capitalize a.el))
+        (xcfgEntry L a :: xcfgAtomLines L (some a.el) as) = .ok (xreadOf L aq a :: as.map (xreadOf L aq)) := by
+      rw [xcfgData_entry L aq _ a (capitalize a.el) _ hlen ha.2.2.2, ihh]
+      rfl
+    by_cases he : e = a.el
+    · subst he
+      simp only [xcfgAtomLines, if_true, List.nil_append, List.map_cons]
+      exact hentry
+    · have : (some e = some a.el) = False := by simp [he]
+      simp only [xcfgAtomLines, this, if_false, List.cons_append, List.nil_append, List.map_cons]
+      rw [xcfgData_mass, xcfgData_el _ _ _ _ _ _ _ ha.1 ha.2.1]
+      exact hentry
+
+/-! ## XCFG: the whole header -/
+
+theorem list9 {α} (l : List α) (h : l.length = 9) :
+    ∃ b0 b1 b2 b3 b4 b5 b6 b7 b8, l = [b0, b1, b2, b3, b4, b5, b6, b7, b8] := by
+  match l, h with
+  | [b0, b1, b2, b3, b4, b5, b6, b7, b8], _ => exact ⟨b0, b1, b2, b3, b4, b5, b6, b7, b8, rfl⟩
+
+def h0Line (base : List Rat) (k : Nat) : Str :=
+  "H0(".toList ++ nameI (k / 3 + 1) ++ [','] ++ nameI (k % 3 + 1) ++ ") = ".toList ++ g8 (base.getD k 0) ++ " A".toList
+
+/-! explicit-field forms of the header steps (no nested record updates) -/
+
+theorem xh_n' (k : Nat) (rest : List Str) (a : Option Rat) (h0 : List (Option Rat)) (nv : Bool) (ec : Option Int)
+    (aux : List (Nat × Str)) :
+    xcfgHeader (("Number of particles = ".toList ++ natDigits k) :: rest) ⟨none, a, h0, nv, ec, aux⟩ =
+      xcfgHeader rest ⟨some (k : Int), a, h0, nv, ec, aux⟩ := xh_n k rest _ rfl
+
+theorem xh_A' (x : Rat) (rest : List Str) (n : Int) (a : Option Rat) (h0 : List (Option Rat)) (nv : Bool) (ec : Option Int)
+    (aux : List (Nat × Str)) :
+    xcfgHeader (("A = ".toList ++ g8 x ++ " Angstrom".toList) :: rest) ⟨some n, a, h0, nv, ec, aux⟩ =
+      xcfgHeader rest ⟨some n, some (roundSig 8 x), h0, nv, ec, aux⟩ := xh_A x rest _ rfl
+
+theorem xh_H0' (i j : Nat) (hi : 1 ≤ i ∧ i ≤ 3) (hj : 1 ≤ j ∧ j ≤ 3) (v : Rat) (rest : List Str)
+    (n : Int) (a : Option Rat) (h0 : List (Option Rat)) (nv : Bool) (ec : Option Int) (aux : List (Nat × Str)) :
+    xcfgHeader (("H0(".toList ++ nameI i ++ [','] ++ nameI j ++ ") = ".toList ++ g8 v ++ " A".toList) :: rest)
+        ⟨some n, a, h0, nv, ec, aux⟩ =
+      xcfgHeader rest ⟨some n, a, h0.set ((i - 1) * 3 + (j - 1)) (some (roundSig 8 v)), nv, ec, aux⟩ :=
+  xh_H0 i j hi hj v rest _ rfl
+
+theorem xh_novel' (rest : List Str) (n : Int) (a : Option Rat) (h0 : List (Option Rat)) (nv : Bool) (ec : Option Int)
+    (aux : List (Nat × Str)) :
+    xcfgHeader (".NO_VELOCITY.".toList :: rest) ⟨some n, a, h0, nv, ec, aux⟩ =
+      xcfgHeader rest ⟨some n, a, h0, true, ec, aux⟩ := xh_novel rest _ rfl
+
+theorem xh_ec' (k : Nat) (rest : List Str) (n : Int) (a : Option Rat) (h0 : List (Option Rat)) (nv : Bool) (ec : Option Int)
+    (aux : List (Nat × Str)) :
+    xcfgHeader (("entry_count = ".toList ++ natDigits k) :: rest) ⟨some n, a, h0, nv, ec, aux⟩ =
+      xcfgHeader rest ⟨some n, a, h0, nv, some (k : Int), aux⟩ := xh_ec k rest _ rfl
+
+theorem xh_auxes' (l : List Str) (htok : ∀ nm ∈ l, IsTok nm) (rest : List Str) (n : Int) (a : Option Rat)
+    (h0 : List (Option Rat)) (nv : Bool) (ec : Option Int) :
+    xcfgHeader ((l.zipIdx 0).map auxLine ++ rest) ⟨some n, a, h0, nv, ec, []⟩ =
+      xcfgHeader rest ⟨some n, a, h0, nv, ec, auxPairs l 0⟩ := by
+  have := xh_auxes l 0 ⟨some n, a, h0, nv, ec, []⟩ rest rfl htok (by intro p hp; cases hp)
+  simpa using this
+
+theorem xh_mass' (m : Rat) (rest : List Str) (n : Int) (a : Option Rat) (h0 : List (Option Rat)) (nv : Bool) (ec : Option Int)
+    (aux : List (Nat × Str)) :
+    xcfgHeader (fmtF 0 4 m :: rest) ⟨some n, a, h0, nv, ec, aux⟩ = .ok (⟨some n, a, h0, nv, ec, aux⟩, rest) :=
+  xh_mass m rest _ rfl
+
+theorem xh_H0block (base : List Rat) (hb : base.length = 9) (rest : List Str)
+    (n : Int) (a : Option Rat) (nv : Bool) (ec : Option Int) (aux : List (Nat × Str)) :
+    xcfgHeader ((List.range 9).map (h0Line base) ++ rest) ⟨some n, a, List.replicate 9 none, nv, ec, aux⟩ =
+      xcfgHeader rest ⟨some n, a, base.map (fun b => some (roundSig 8 b)), nv, ec, aux⟩ := by
+  obtain ⟨b0, b1, b2, b3, b4, b5, b6, b7, b8, rfl⟩ := list9 base hb
+  have r9 : List.range 9 = [0, 1, 2, 3, 4, 5, 6, 7, 8] := by decide
+  rw [r9]
+  simp only [List.map_cons, List.map_nil, List.cons_append, List.nil_append]
+  unfold h0Line
+  simp only [Nat.reduceDiv, Nat.reduceMod, Nat.reduceAdd]
+  rw [xh_H0' 1 1 (by omega) (by omega), xh_H0' 1 2 (by omega) (by omega), xh_H0' 1 3 (by omega) (by omega),
+    xh_H0' 2 1 (by omega) (by omega), xh_H0' 2 2 (by omega) (by omega), xh_H0' 2 3 (by omega) (by omega),
+    xh_H0' 3 1 (by omega) (by omega), xh_H0' 3 2 (by omega) (by omega), xh_H0' 3 3 (by omega) (by omega)]
+  rfl
+
+def numLine (n : Nat) : Str := "Number of particles = ".toList ++ natDigits n
+def aLine (x : Rat) : Str := "A = ".toList ++ g8 x ++ " Angstrom".toList
+def ecLine (k : Nat) : Str := "entry_count = ".toList ++ natDigits k
+
+/-- `writeXcfg` as a function of the layout, lines right-nested -/
+def writeXcfgL (L : XLayout) (d : XcfgS) : List Str :=
+  numLine d.atoms.length :: aLine (L.a : Rat) ::
+  ((List.range 9).map (h0Line d.base) ++
+  ((if L.noVel then [".NO_VELOCITY.".toList] else []) ++
+  (ecLine ((if L.noVel then 3 else 6) + L.aux.length) ::
+  ((L.aux.zipIdx.map auxLine) ++ ([] :: xcfgAtomLines L none d.atoms)))))
+
+theorem writeXcfgL_eq (L : XLayout) (d : XcfgS) :
+    [numLine d.atoms.length, aLine (L.a : Rat)] ++
+      (List.range 9).map (h0Line d.base) ++
+      (if L.noVel then [".NO_VELOCITY.".toList] else []) ++
+      [ecLine ((if L.noVel then 3 else 6) + L.aux.length)] ++
+      (L.aux.zipIdx.map auxLine) ++ [[]] ++ xcfgAtomLines L none d.atoms = writeXcfgL L d := by
+  simp only [writeXcfgL, List.append_assoc, List.cons_append, List.nil_append]
+
+theorem writeXcfg_eq (d : XcfgS) : writeXcfg d = writeXcfgL (xcfgLayout d) d := by
+  rw [← writeXcfgL_eq]
+  rfl
+
+theorem IsTok_lit (s : Str) (h : (!s.isEmpty && s.all (fun c => !isWs c)) = true) : IsTok s := by
+  simp only [Bool.and_eq_true, Bool.not_eq_true', List.all_eq_true] at h
+  refine ⟨?_, fun c hc => ?_⟩
+  · intro e; subst e; simp at h
+  · simpa using h.2 c hc
+
+theorem uNamesOf_tok (L : XLayout) : ∀ nm ∈ uNamesOf L, IsTok nm := by
+  have hall : ∀ nm ∈ ["Uiso".toList, "U11".toList, "U22".toList, "U33".toList, "U12".toList, "U13".toList, "U23".toList],
+      IsTok nm := by
+    intro nm h
+    simp only [List.mem_cons, List.not_mem_nil, or_false] at h
+    rcases h with h | h | h | h | h | h | h <;> subst h <;> exact IsTok_lit _ (by decide)
+  intro nm h
+  apply hall
+  unfold uNamesOf at h
+  split at h
+  · cases h
+  · split at h
+    · simp only [List.mem_singleton] at h; simp [h]
+    · cases L.u12 <;> cases L.u13 <;> cases L.u23 <;> simp at h ⊢ <;> tauto
+
+theorem layout_aux_tok (d : XcfgS) (hs : d.storedAux.all elemOk = true) : ∀ nm ∈ (xcfgLayout d).aux, IsTok nm := by
+  intro nm hnm
+  rw [layout_aux] at hnm
+  simp only [List.mem_append] at hnm
+  rcases hnm with (h | h) | h
+  · have := (List.mem_filter.1 h).1
+    exact IsTok_of_elemOk (List.all_eq_true.1 hs nm this)
+  · split at h
+    · simp only [List.mem_singleton] at h; subst h; exact IsTok_lit _ (by decide)
+    · cases h
+  · exact uNamesOf_tok _ nm h
+
+theorem xcfgAtomLines_snoc (L : XLayout) : ∀ (as : List XAtom) (prev : Option Str), as ≠ [] →
+    ∃ pre a, a ∈ as ∧ xcfgAtomLines L prev as = pre ++ [xcfgEntry L a] := by
+  intro as
+  induction as with
+  | nil => intro _ h; exact absurd rfl h
+  | cons a as ih =>
+    intro prev _
+    by_cases has : as = []
+    · subst has
+      exact ⟨(if prev = some a.el then [] else [fmtF 0 4 a.mass, a.el]), a, by simp, by simp [xcfgAtomLines]⟩
+    · obtain ⟨pre, b, hb, e⟩ := ih (some a.el) has
+      refine ⟨(if prev = some a.el then [] else [fmtF 0 4 a.mass, a.el]) ++ xcfgEntry L a :: pre, b, by simp [hb], ?_⟩
+      simp [xcfgAtomLines, e]
+
+theorem entryVals_ne_nil (L : XLayout) (a : XAtom) : entryVals L a ≠ [] := by
+  simp [entryVals, xcfgPos]
+
+theorem xcfgEntry_nonblank (L : XLayout) (a : XAtom) : (strip (xcfgEntry L a)).isEmpty = false := by
+  apply strip_ne_of_split
+  rw [xcfgEntry_eq, splitWs_entry]
+  simpa using entryVals_ne_nil L a
+
+theorem xcfgEntry_ne_nil (L : XLayout) (a : XAtom) : xcfgEntry L a ≠ [] := by
+  intro h
+  have := xcfgEntry_nonblank L a
+  rw [h] at this
+  simp [strip, lstrip, rstrip] at this
+
+def hdr0 : XHdr := ⟨none, none, List.replicate 9 none, false, none, []⟩
+
+/-- the header of a written XCFG file, evaluated: the reader's state at the `break`, and the lines left
+(the first mass line is consumed by the `break`) -/
+theorem xcfgHeader_write (L : XLayout) (d : XcfgS) (a : XAtom) (as : List XAtom) (hat : d.atoms = a :: as)
+    (hb : d.base.length = 9) (htok : ∀ nm ∈ L.aux, IsTok nm) :
+    xcfgHeader (writeXcfgL L d) hdr0 =
+      .ok (⟨some (d.atoms.length : Int), some (roundSig 8 (L.a : Rat)),
+            d.base.map (fun b => some (roundSig 8 b)), L.noVel,
+            some (((if L.noVel then 3 else 6) + L.aux.length : Nat) : Int),
+            auxPairs L.aux 0⟩,
+           a.el :: xcfgEntry L a :: xcfgAtomLines L (some a.el) as) := by
+  rw [writeXcfgL, hat, xcfgAtomLines, hdr0]
+  unfold numLine aLine ecLine
+  rw [xh_n', xh_A', xh_H0block d.base hb]
+  cases hnv : L.noVel with
+  | true =>
+    simp only [if_true, List.cons_append, List.nil_append]
+    rw [xh_novel', xh_ec', xh_auxes' _ htok, xh_blank]
+    simp only [reduceCtorEq, if_false, List.cons_append, List.nil_append]
+    rw [xh_mass']
+  | false =>
+    simp only [Bool.false_eq_true, if_false, List.nil_append]
+    rw [xh_ec', xh_auxes' _ htok, xh_blank]
+    simp only [reduceCtorEq, if_false, List.cons_append, List.nil_append]
+    rw [xh_mass']
+
+theorem mapM_id_some {α} (l : List α) (f : α → α) : (l.map (fun b => some (f b))).mapM id = some (l.map f) := by
+  induction l with
+  | nil => rfl
+  | cons a l ih => simp [ih]
+
+theorem writeXcfgL_snoc (L : XLayout) (d : XcfgS) (hne : d.atoms ≠ []) :
+    ∃ Y b, b ∈ d.atoms ∧ writeXcfgL L d = Y ++ [xcfgEntry L b] := by
+  obtain ⟨pre, b, hb, e⟩ := xcfgAtomLines_snoc L d.atoms none hne
+  refine ⟨[numLine d.atoms.length, aLine (L.a : Rat)] ++
+      (List.range 9).map (h0Line d.base) ++
+      (if L.noVel then [".NO_VELOCITY.".toList] else []) ++
+      [ecLine ((if L.noVel then 3 else 6) + L.aux.length)] ++
+      (L.aux.zipIdx.map auxLine) ++ [[]] ++ pre, b, hb, ?_⟩
+  rw [← writeXcfgL_eq, e, ← List.append_assoc]
+
+/-- line level: `parseLines(toLines(s))` for XCFG, for any layout whose auxiliary list has the
+right length -/
+theorem parseXcfg_writeXcfgL (L : XLayout) (d : XcfgS) (hne : d.atoms ≠ []) (hb : d.base.length = 9)
+    (htok : ∀ nm ∈ L.aux, IsTok nm) (nst : Nat) (hL : L.aux.length = nst + (if L.occ then 1 else 0) + uCount L)
+    (hwf : ∀ a ∈ d.atoms, atomWF L nst a) :
+    parseXcfg (writeXcfgL L d) = .ok (quantXcfgL L d) := by
+  obtain ⟨a, as, hat⟩ : ∃ a as, d.atoms = a :: as := by
+    cases h : d.atoms with
+    | nil => exact absurd h hne
+    | cons a as => exact ⟨a, as, rfl⟩
+  have hdrop : dropTrailingBlank (writeXcfgL L d) = writeXcfgL L d := by
+    obtain ⟨Y, b, _, e⟩ := writeXcfgL_snoc L d hne
+    rw [e]
+    exact dropTrailingBlank_snoc Y _ (xcfgEntry_nonblank L b)
+  have hdata := xcfgData_atoms L (roundSig 8 (L.a : Rat)) nst hL (a :: as) a.el (by rw [← hat]; exact hwf)
+  have hdata' : xcfgData (roundSig 8 (L.a : Rat)) L.noVel ((if L.noVel then 3 else 6) + L.aux.length) L.aux none
+      (a.el :: xcfgEntry L a :: xcfgAtomLines L (some a.el) as) = .ok ((a :: as).map (xreadOf L (roundSig 8 (L.a : Rat)))) := by
+    have ha := hwf a (by rw [hat]; simp)
+    rw [xcfgData_el _ _ _ _ _ _ _ ha.1 ha.2.1]
+    simpa [xcfgAtomLines] using hdata
+  have hec : ((L.aux.length : Int) + (if L.noVel then 3 else 6)) =
+      (((if L.noVel then 3 else 6) + L.aux.length : Nat) : Int) := by
+    cases L.noVel <;> simp <;> omega
+  unfold parseXcfg
+  rw [hdrop]
+  have hw := xcfgHeader_write L d a as hat hb htok
+  rw [hdr0] at hw
+  rw [hw]
+  simp only [mapM_id_some, auxnum_eq, hec, Int.toNat_natCast, ne_eq, not_true_eq_false, if_false]
+  generalize hg : List.map _ (List.range L.aux.length) = names
+  have hnames : names = L.aux := by
+    rw [← hg]
+    apply range_map_eq
+    intro i hi
+    have := auxPairs_find L.aux 0 i hi
+    simp only [Nat.zero_add] at this
+    simp [this]
+  rw [hnames, hdata']
+  simp [quantXcfgL, hat]
+
+/-! ## XCFG: text level -/
+
+theorem NoNL_lit (s : Str) (h : s.all (fun c => !isNL c) = true) : NoNL s := by
+  intro c hc
+  have := List.all_eq_true.1 h c hc
+  simpa using this
+
+theorem NoNL_tok {t : Str} (h : IsTok t) : NoNL t := NoNL_of_NoWs h.2
+
+theorem NoNL_g8 (x : Rat) : NoNL (g8 x) := NoNL_tok (IsTok_g8 x)
+
+theorem NoNL_natDigits (n : Nat) : NoNL (natDigits n) := NoNL_tok (IsTok_natDigits n)
+
+theorem NoNL_xcfgEntry (L : XLayout) (a : XAtom) : NoNL (xcfgEntry L a) := by
+  rw [xcfgEntry_eq, ssv]
+  apply NoNL_joinSep NoNL_ssvsep
+  intro f hf
+  obtain ⟨x, _, rfl⟩ := List.mem_map.1 hf
+  exact NoNL_g8 x
+
+theorem NoNL_xcfgAtomLines (L : XLayout) : ∀ (as : List XAtom) (prev : Option Str),
+    (∀ a ∈ as, elemOk a.el = true) → ∀ l ∈ xcfgAtomLines L prev as, NoNL l := by
+  intro as
+  induction as with
+  | nil => intro _ _ l hl; cases hl
+  | cons a as ih =>
+    intro prev hel l hl
+    simp only [xcfgAtomLines, List.mem_append, List.mem_cons] at hl
+    rcases hl with hl | rfl | hl
+    · split at hl
+      · cases hl
+      · simp only [List.mem_cons, List.not_mem_nil, or_false] at hl
+        rcases hl with rfl | rfl
+        · exact NoNL_fmtF 0 4 a.mass
+        · exact NoNL_elem (hel a (by simp))
+    · exact NoNL_xcfgEntry L a
+    · exact ih (some a.el) (fun b hb => hel b (by simp [hb])) l hl
+
+theorem NoNL_writeXcfgL (L : XLayout) (d : XcfgS) (htok : ∀ nm ∈ L.aux, IsTok nm) (hel : ∀ a ∈ d.atoms, elemOk a.el = true) :
+    ∀ l ∈ writeXcfgL L d, NoNL l := by
+  intro l hl
+  rw [← writeXcfgL_eq] at hl
+  simp only [List.mem_append, List.mem_cons, List.not_mem_nil, or_false, List.mem_map, List.mem_range] at hl
+  rcases hl with (((((hl | hl) | hl) | hl) | hl) | hl) | hl
+  · rcases hl with rfl | rfl
+    · unfold numLine; rw [lNumEq]
+      exact NoNL_append (NoNL_lit _ (by decide)) (NoNL_natDigits _)
+    · unfold aLine; rw [lAeq, lAng]
+      exact NoNL_append (NoNL_append (NoNL_lit _ (by decide)) (NoNL_g8 _)) (NoNL_lit _ (by decide))
+  · obtain ⟨k, _, rfl⟩ := hl
+    unfold h0Line nameI; rw [lH0, lH0e, lHA]
+    exact NoNL_append (NoNL_append (NoNL_append (NoNL_append (NoNL_append (NoNL_append (NoNL_lit _ (by decide))
+      (NoNL_natDigits _)) (NoNL_lit _ (by decide))) (NoNL_natDigits _)) (NoNL_lit _ (by decide))) (NoNL_g8 _))
+      (NoNL_lit _ (by decide))
+  · split at hl
+    · simp only [List.mem_singleton] at hl; subst hl; rw [lNoVel]; exact NoNL_lit _ (by decide)
+    · cases hl
+  · subst hl
+    unfold ecLine; rw [lEcEq]
+    exact NoNL_append (NoNL_lit _ (by decide)) (NoNL_natDigits _)
+  · obtain ⟨p, hp, rfl⟩ := hl
+    have hnm : IsTok p.1 := htok p.1 (List.fst_mem_of_mem_zipIdx hp)
+    unfold auxLine; rw [lAux, lAuxE, lAu]
+    exact NoNL_append (NoNL_append (NoNL_append (NoNL_append (NoNL_lit _ (by decide)) (NoNL_natDigits _))
+      (NoNL_lit _ (by decide))) (NoNL_tok hnm)) (NoNL_lit _ (by decide))
+  · subst hl; exact NoNL_nil
+  · exact NoNL_xcfgAtomLines L d.atoms none hel l hl
+
+theorem layout_noVel (d : XcfgS) :
+    (xcfgLayout d).noVel = (match d.atoms with | a :: _ => a.v.isNone | [] => true) := rfl
+
+/-- what `reprXcfg` says, as propositions -/
+theorem reprXcfg_spec (d : XcfgS) (h : reprXcfg d = true) :
+    d.atoms ≠ [] ∧ d.base.length = 9 ∧ d.storedAux.all elemOk = true ∧
+    ∀ a ∈ d.atoms, atomWF (xcfgLayout d) (storedOf d).length a := by
+  simp only [reprXcfg, rangeXcfg, wfXcfg, Bool.and_eq_true, Bool.not_eq_true', List.all_eq_true, beq_iff_eq,
+    Bool.or_eq_true] at h
+  obtain ⟨⟨⟨⟨⟨hne, hb⟩, hat⟩, hs⟩, _⟩, hax, hv⟩ := h
+  refine ⟨?_, hb, List.all_eq_true.2 hs, ?_⟩
+  · intro e; rw [e] at hne; simp at hne
+  · intro a ha
+    obtain ⟨⟨he, hf⟩, _⟩ := hat a ha
+    refine ⟨he, hf, hax a ha, ?_⟩
+    intro hnv
+    rw [layout_noVel] at hnv
+    rcases hv with hv | hv
+    · cases hda : d.atoms with
+      | nil => rw [hda] at ha; cases ha
+      | cons b bs =>
+        rw [hda] at hnv hv
+        simp only at hnv hv
+        rw [hv] at hnv; cases hnv
+    · exact hv a ha
+
+/-- string level: `readStr(writeStr("xcfg"), "xcfg")` — the full statement for XCFG -/
+theorem roundtrip_xcfg : roundtrip_xcfg_statement := by
+  intro d h
+  obtain ⟨hne, hb, hs, hwf⟩ := reprXcfg_spec d h
+  have htok := layout_aux_tok d hs
+  have hel : ∀ a ∈ d.atoms, elemOk a.el = true := fun a ha => (hwf a ha).1
+  have hL := layout_aux_length d
+  rw [writeXcfg_eq, quantXcfg_eq]
+  generalize xcfgLayout d = L at *
+  have hne' : writeXcfgL L d ≠ [] := by rw [writeXcfgL]; exact List.cons_ne_nil _ _
+  rw [ofText_toText (writeXcfgL L d) hne' (NoNL_writeXcfgL L d htok hel)]
+  · exact parseXcfg_writeXcfgL L d hne hb htok _ hL hwf
+  · obtain ⟨Y, b, _, e⟩ := writeXcfgL_snoc L d hne
+    simp only [e, List.getLast_append_singleton]
+    exact xcfgEntry_ne_nil L b
+
 end DS.Formats
